@@ -212,6 +212,10 @@ static vector<string> listsOf(const vector<string>& names, size_t maxN) {
 }
 struct LvlCtx { World* w; vector<string> levels; vector<Message*> rd, wr, pv; };
 static LvlCtx* levelWorld(bool thorough) {
+  {  // a configured broker port makes the daemon register its MQTT handler (MainLoop constructor)
+    static char port[8] = "1883";
+    if (mqttOption("mqttport", port) != 0) { fprintf(stderr, "mqtt_real: --mqttport refused\n"); exit(3); }
+  }
   LvlCtx* c = new LvlCtx();
   c->levels = {""};
   for (auto& n : namesOver(thorough ? "abc" : "ab", 2)) c->levels.push_back(n);
@@ -253,7 +257,13 @@ static string levelCase(LvlCtx* c, const string& D, const string& M, size_t mi, 
   g_now += 1000;
   string eff = M == "-" ? D : M;
   bool granted = refGranted(c->levels[mi], eff);
-  MqttHandler h(&c->w->loop->m_userList, c->w->busHandler, c->w->messages);
+  // the handler is the one the MainLoop constructor itself registered (datahandler_register): its levels are whatever
+  // the daemon's start-up order made of the ACL file and the options
+  MqttHandler* hp = nullptr;
+  for (auto dh : c->w->loop->m_dataHandlers) if (auto mh = dynamic_cast<MqttHandler*>(dh)) hp = mh;
+  if (!hp) { fprintf(stderr, "mqtt_real: the MainLoop constructor registered no MqttHandler\n"); exit(3); }
+  MqttHandler& h = *hp;
+  h.m_updatedMessages.clear();
   string ii = two(mi + 1);
   if (form == "getpassive" || form == "list") {  // data on the passive / read message, seen on the bus
     MasterSymbolString m; SlaveSymbolString s;
